@@ -11,7 +11,9 @@ CLAIMED = {
         design_ref="4.2",
         technique="TLA+ refinement check (InFlightImpl => InFlight) with TLC on the complete state graph; every "
                   "TLC transition replayed on the real SrtlaConnection/shell functions; recorded random histories "
-                  "of the real code validated by TLC against the set model",
+                  "of the real code validated by TLC against the set model"
+              "; the UNMODIFIED event loop (run_sender_with_config on a paused clock, real sockets) recorded end to end and "
+              "validated by TLC against the observer Trace_Loop.tla (the in-flight count each keepalive reports equals what left on that socket minus what the receiver has acknowledged since)",
         text="TLC explores the complete reachable graph of the code-shaped accounting model (packet log, high-water "
              "mark, fast/slow cumulative-ACK path) and checks it refines the property's per-link set model; each "
              "transition of that graph is then executed on real connections through take_batch, "
